@@ -636,13 +636,54 @@ impl World {
         }
     }
 
-    fn observers_hs(hs: &HandshakeState) -> (bool, bool, bool, Vec<u8>) {
+    /// Everything a handshake state reports about itself (compared around failing calls; the
+    /// payload-encrypted indication belongs to the last *successful* write).
+    fn observers_hs(hs: &HandshakeState) -> (bool, bool, bool, Vec<u8>, bool) {
         (
             hs.is_my_turn(),
             hs.is_handshake_finished(),
             hs.is_initiator(),
             hs.get_handshake_hash().to_vec(),
+            hs.was_write_payload_encrypted(),
         )
+    }
+
+    /// A node the model cannot follow (keys of irregular length that the builder accepted, an
+    /// accepted out-of-domain argument): its calls are still made, under the panic monitor and
+    /// the "an error changes nothing observable" rule - no other oracle applies.
+    fn blind_hs_call(&mut self, node: &mut Node, write: bool, data: &[u8], buflen: usize) {
+        let hs = match &mut node.st {
+            St::Hs(h) => h,
+            _ => return,
+        };
+        self.call_id += 1;
+        node.rng.begin_call(self.call_id, 0xB11D);
+        let before = guarded(|| Self::observers_hs(hs));
+        let mut out = prefill(buflen.min(80_000), self.call_id);
+        let r = guarded(|| if write { hs.write_message(data, &mut out) } else { hs.read_message(data, &mut out) });
+        let what = if write { "blind/hs-write" } else { "blind/hs-read" };
+        match r {
+            Err(p) => {
+                self.flag(&["C10"], "panic", what, &format!("{p}; len={} buf={buflen}", data.len()));
+                self.stats.aborted_by_panic += 1;
+                node.st = St::Gone("panic");
+            },
+            Ok(res) => {
+                self.stats.probe("call-on-node-without-model");
+                self.trace.write_u64(res.is_ok() as u64);
+                if let Err(e) = &res {
+                    self.render_err(e);
+                    if let St::Hs(hs) = &node.st {
+                        let after = guarded(|| Self::observers_hs(hs));
+                        match (before, after) {
+                            (Ok(b), Ok(a)) if a != b => self.flag(&["C07"], "observables-changed-by-failed-call", what, &format!("{e:?}")),
+                            (_, Err(p)) | (Err(p), _) => self.flag(&["C10"], "panic", "blind/query", &p),
+                            _ => {},
+                        }
+                    }
+                }
+            },
+        }
     }
 
     /// Monitors evaluated after every op on a node: indicators (C11), remote static (C17).
@@ -668,7 +709,9 @@ impl World {
         if let Err(p) = dbg {
             self.flag(&["C10"], "panic", &format!("debug-fmt/{phase}"), &p);
         }
+        #[cfg(feature = "rawsplit")]
         let finished_split = node.shadow.as_ref().and_then(|s| if s.finished() { s.split } else { None });
+        #[cfg(feature = "rawsplit")]
         if let St::Hs(hs) = &mut node.st {
             match guarded(|| (hs.dangerously_get_raw_split(), hs.dangerously_get_raw_split())) {
                 Err(p) => self.flag(&["C10"], "panic", "raw-split", &p),
@@ -689,7 +732,7 @@ impl World {
     fn post_checks(&mut self, i: usize, node: &mut Node, what: &str) {
         let r = guarded(|| match &node.st {
             St::Hs(hs) => {
-                let (t, f, ini, _) = Self::observers_hs(hs);
+                let (t, f, ini, _, _) = Self::observers_hs(hs);
                 Some((Some((t, f)), ini, hs.get_remote_static().map(|r| r.to_vec())))
             },
             St::Tr(t) => Some((None, t.is_initiator(), t.get_remote_static().map(|r| r.to_vec()))),
@@ -1166,7 +1209,14 @@ impl World {
     fn hs_write(&mut self, i: usize, node: &mut Node, payload: &[u8], buf: Buf) {
         let shadow = match &node.shadow {
             Some(s) => s.clone(),
-            None => return,
+            None => {
+                let buflen = match buf {
+                    Buf::Abs(n) => n as usize,
+                    _ => payload.len() + 300,
+                };
+                self.blind_hs_call(node, true, payload, buflen);
+                return;
+            },
         };
         let site = self.site_hs(node, "hs-write");
         let fields = shadow.field_map(payload.len());
@@ -1711,7 +1761,14 @@ impl World {
     ) {
         let shadow = match &node.shadow {
             Some(s) => s.clone(),
-            None => return,
+            None => {
+                let outlen = match outspec {
+                    Buf::Abs(n) => n as usize,
+                    _ => bytes.len() + 16,
+                };
+                self.blind_hs_call(node, false, bytes, outlen);
+                return;
+            },
         };
         let site = self.site_hs(node, "hs-read");
         let mut whys = vec![];
@@ -2280,9 +2337,11 @@ impl World {
         let finished = node.shadow.as_ref().map(|s| s.finished());
         node.final_hash = Some(hs.get_handshake_hash().to_vec());
         let site = format!("convert/{}", if stateless { "stateless" } else { "stateful" });
+        #[allow(unused_mut)]
         let mut hs = hs;
         // the raw split (feature risky-raw-split) is the specification's Split() of the final
         // chaining key; asking for it (also mid-handshake) must not disturb the session
+        #[cfg(feature = "rawsplit")]
         if self.call_id % 3 == 0 {
             match guarded(|| hs.dangerously_get_raw_split()) {
                 Err(p) => self.flag(&["C10"], "panic", "raw-split", &p),
@@ -2353,10 +2412,15 @@ impl World {
         if i >= self.nodes.len() {
             return;
         }
+        // without the hook (second build) the sending counter cannot be placed: the op is void
+        if sending && !cfg!(feature = "hooks") {
+            return;
+        }
         let mut node = self.take(i);
         if let St::Tr(t) = &mut node.st {
             let r = guarded(|| {
                 if sending {
+                    #[cfg(feature = "hooks")]
                     t.verif_set_sending_nonce(v);
                 } else {
                     t.set_receiving_nonce(v);
